@@ -29,7 +29,7 @@ RULE = ("Installations (1..4 ACs x 0..16 zones, contiguous partitions, AT4 old/n
 ASSUMPTIONS = ["the console answers as the vendor documents prescribe (SimConsole on refproto)",
                "an unsolicited truthful frame of the awaited kind counts as the answer",
                "connect latency of exactly 5 s races with the 5 s timeout: either result accepted"]
-REQUIRED_OBS = ["names_listed_out_of_order", "last_step_gated", "init_true_judged", "init_false_judged", "extras_inserted", "zero_zone_at5",
+REQUIRED_OBS = ["second_init_judged", "names_listed_out_of_order", "last_step_gated", "init_true_judged", "init_false_judged", "extras_inserted", "zero_zone_at5",
                 "zero_zone_at4",
                 "bitmap_partitions", "old_format_multi_ac", "silence_cases", "late_connect_cases"]
 BUDGET = {"quick": 100, "thorough": 1500}
@@ -144,7 +144,7 @@ def cases(tier, seed):
     n = 120 if tier == "quick" else 40000
     for i in range(n):
         yield {"gen": rnd.choice((4, 5)), "seed": rnd.randrange(1 << 30), "extras": {},
-               "seg": i % 5, "silent": None, "lat": 0.0}
+               "seg": i % 5, "silent": None, "lat": 0.0, "again": i % 3 == 0}
     # every single insertion at each step
     for gen in (4, 5):
         for step in C.STEPS:
@@ -274,11 +274,39 @@ def run_case(case):
         await asyncio.sleep(0.5)
         await w.at.shutdown()
         await quiesce(loop)
+        out["first_end"] = log.mark()
+        if r is True and case.get("again"):
+            # the same object initialised once more, against whatever the console describes
+            # THEN (another installation, often a smaller one)
+            inst2, _m2 = installation(gen, rnd, rnd.choice([0, 1, 2, None]))
+            net.script.clear()
+            w.console = C.SimConsole(net, inst2, C.Knobs())
+            out["again_ret"] = await H.probe(log, "init", w.at.init())
+            await quiesce(loop)
+            out["again_snap"] = H.snapshot(w.at)
+            out["again_want"] = expected_structure(inst2)
+            await w.at.shutdown()
+            await quiesce(loop)
 
     _, log, st = H.run(main)
 
     def v(mech, **d):
         viol.append({"mechanism": mech, "detail": d, "log": H.log_slice(log, 40)})
+
+    if "again_ret" in out:
+        if out["again_ret"] is not True:
+            if not (gen == 4 and not out["again_want"][1]):
+                v("second-init-of-the-same-object-fails", ret=repr(out["again_ret"]))
+        else:
+            acs2, names2 = out["again_want"]
+            snap2 = out["again_snap"]
+            got = {a: sorted(x["zones"]) for a, x in snap2["acs"].items()}
+            want = {a: sorted(e["zones"]) for a, e in acs2.items()}
+            if got != want:
+                v("second-init-exposes-other-entities-than-the-console-described", got=got,
+                  want=want)
+            else:
+                obs["second_init_judged"] = 1
 
     if st != "ok":
         v("init-hangs", status=st, got=out.get("ret"))
@@ -305,6 +333,8 @@ def run_case(case):
         v("discovery-requests-out-of-order", requests=six[:10])
     gate_events = []
     for seq, t, kind, d in log.events:
+        if seq >= out.get("first_end", 10 ** 12):
+            break   # (a second session of the same object is judged separately)
         if kind == "CON.frame" and d["cmd"]["kind"] in C.STEPS:
             gate_events.append((seq, "req", d["cmd"]["kind"]))
         elif kind == "NET.deliver":
